@@ -189,3 +189,39 @@ def canon(x):
 
 def digest_of(x):
     return hashlib.sha256(json.dumps(canon(x), sort_keys=True).encode()).hexdigest()[:16]
+
+
+# The order of the constructor parameters as documented at the pinned commit: calling a constructor by position is as
+# legitimate as calling it by keyword, and must mean the same
+PINNED_ORDER = {
+    'LAOStar': ('heuristic', 'max_lao_star_iterations', 'dynamic_programming_iterations', 'randomize_action_order',
+                'randomize_nextstate_order', 'event_listener_class', 'seed'),
+    'LRTDP': ('heuristic', 'bellman_error_margin', 'iterations', 'randomize_action_order', 'max_trial_length',
+              'event_listener_class', 'seed'),
+    'TD': ('episodes', 'step_size', 'rand_choose', 'softmax_temp', 'initial_q', 'seed', 'event_listener_class'),
+    'RMAX': ('episodes', 'rmax', 'num_transition_samples', 'bellman_convergence_diff', 'seed', 'event_listener_class'),
+}
+PINNED_DEFAULTS = {
+    'LAOStar': dict(max_lao_star_iterations=int(1e5), dynamic_programming_iterations=100, randomize_action_order=True,
+                    randomize_nextstate_order=True, event_listener_class=None, seed=None),
+    'LRTDP': dict(bellman_error_margin=1e-2, iterations=int(2 ** 30), randomize_action_order=False, max_trial_length=None,
+                  event_listener_class=None, seed=None),
+    'TD': dict(episodes=100, step_size=.1, rand_choose=.05, softmax_temp=0.0, initial_q=0.0, seed=None),
+    'RMAX': dict(episodes=100, rmax=1.0, num_transition_samples=3, bellman_convergence_diff=1e-5, seed=None),
+}
+
+
+def construct(cls, kind, kwargs, positional):
+    """cls(**kwargs), or the same call with every argument given by position in the documented order."""
+    if not positional:
+        return cls(**kwargs)
+    full = dict(PINNED_DEFAULTS[kind])
+    full.update(kwargs)
+    order = [k for k in PINNED_ORDER[kind] if k in full]
+    # positional arguments must be a prefix of the documented order
+    n = 0
+    while n < len(PINNED_ORDER[kind]) and PINNED_ORDER[kind][n] in full:
+        n += 1
+    lead = PINNED_ORDER[kind][:n]
+    rest = {k: v for k, v in full.items() if k not in lead}
+    return cls(*[full[k] for k in lead], **rest)
